@@ -286,6 +286,7 @@ class NM(Component):
   def construct(s):
     s.a = InPort({wa}); s.b = InPort({wb}); s.c = InPort(1); s.o = OutPort({wo}); s.o1 = OutPort(1); s.os = OutPort(NMP)
     s.tbl = [mk_bits({wb})(1), mk_bits({wb})(2 % (1 << {wb})), mk_bits({wb})(3 % (1 << {wb}))]; s.N = 2          # a table of sized constants and an int
+    s.sel = InPort(2); s.itbl = {itbl}          # a table of plain python ints, read with a signal index
     @update
     def up():
       {stmt}
@@ -296,7 +297,8 @@ def gen_nearmiss(rng):
   """-> (source, description).  half of them are exactly well-typed, the others off by one somewhere"""
   w = rng.choice([1, 2, 3, 4, 7, 8, 9, 16, 31, 32, 33, 48, 49, 50, 63, 64, 65, 100])
   d = rng.choice([0, 0, 1, -1]) if w > 1 else rng.choice([0, 1])
-  shape = rng.randrange(25)
+  shape = rng.randrange(26)
+  itbl = [1, 1, 0, 1]
   wa, wb, wo = w, w + d, w
   lit_k = rng.choice([w - 1, w, w + 1, w, w])
   lit = rng.choice([(1 << lit_k) - 1, 1 << lit_k, (1 << lit_k) + 1]) if lit_k >= 0 else 1
@@ -371,6 +373,19 @@ def gen_nearmiss(rng):
     if rng.random() < 0.5: br.reverse()
     use = rng.choice([f"s.o @= x", f"s.o @= s.a {op} x", f"s.o1 @= s.a {cmp_} x"])
     stmt = f"if s.c:\n        {br[0]}\n      else:\n        {br[1]}\n      {use}"
+  elif shape == 25:
+    # an element of a table of PLAIN INTS picked by a signal: whatever width the checker gives s.itbl[s.sel], it has to hold every
+    # entry (entries of equal least width; a first entry narrower / wider than a later one)
+    k = rng.choice([1, 2, 3, 4, 8]) if w > 64 else rng.choice([1, 2, 3, min(w, 12)])
+    same = [rng.randrange(1 << (k - 1), 1 << k) for _ in range(4)]
+    how = rng.choice(["same", "same", "first-narrow", "first-wide", "last-wide"])
+    itbl = list(same)
+    if how == "first-narrow": itbl[0] = rng.randrange(0, 1 << (k - 1)) if k > 1 else 0; itbl[rng.randrange(1, 4)] = (1 << k) + rng.randrange(1 << k)
+    elif how == "first-wide": itbl[0] = (1 << k) + rng.randrange(1 << k)
+    elif how == "last-wide": itbl[3] = (1 << (k + 1)) + 1
+    if rng.random() < 0.7: wa = wo = w = max(1, itbl[0].bit_length()); wb = w
+    stmt = rng.choice([f"s.o @= s.itbl[s.sel]", f"s.o @= s.a {op} s.itbl[s.sel]", f"s.o1 @= s.a {cmp_} s.itbl[s.sel]", f"s.o @= s.a & s.itbl[s.sel]"])
+    lit = how
   elif shape == 24:
     # an element of a table of SIZED constants picked by a constant expression ( s.tbl[s.N - 1] ): it is wb bits wide, full stop
     ix = rng.choice(["s.N - 1", "s.N", "0 + 1", "1"])
@@ -391,7 +406,7 @@ def gen_nearmiss(rng):
     if "s.a" in stmt: wa = wo
     d = wo - w
   else: stmt = f"s.o @= concat(s.a[0:{max(1, w // 2)}], s.b[0:{w - max(1, w // 2) if w > 1 else 1}])"
-  return NM_TMPL.format(wa=wa, wb=max(1, wb), wo=wo, stmt=stmt), {"shape": shape, "w": w, "delta": d, "literal": lit, "stmt": stmt}
+  return NM_TMPL.format(wa=wa, wb=max(1, wb), wo=wo, stmt=stmt, itbl=itbl), {"shape": shape, "w": w, "delta": d, "literal": lit, "stmt": stmt}
 
 
 def run_nearmiss(sh, case):
@@ -411,17 +426,19 @@ def run_nearmiss(sh, case):
     err = None
     for _ in range(6):
       try:
-        for p in ("a", "b", "c"):
+        for p in ("a", "b", "c", "sel"):
           o = getattr(t2, p); o @= Bits(o.nbits, rng.getrandbits(o.nbits))
         t2.sim_eval_combinational()
       except Exception as e:
         err = e; break
     sh.count("nearmiss_cases"); sh.count("evaluations")
     sh.count("nearmiss_accepted" if accepted else "nearmiss_rejected")
+    if desc["shape"] == 25: sh.count("int_table_signal_index:" + str(desc["literal"]) + (":accepted" if accepted else ":rejected"))
     sh.fp("nm", desc["shape"], desc["delta"], accepted, err is not None and is_width_error(err))
     if accepted and err is not None and is_width_error(err):
       lit = desc["literal"]
       mech = "literal-width-float-log2-wrong-from-2^49" if desc["shape"] in (4, 5, 6) and lit >= (1 << 49) else None
+      if desc["shape"] == 25: sh.count("int_table_cases_accepted_and_raising")
       if desc["shape"] == 14 and "Integer -" in str(err):
         mech = "negative-integer-constant-operand-accepted-but-refused-by-simulation"
       sh.violation("checker-accepted-a-block-whose-simulation-raises-a-width-error", dict(desc, error=str(err)[:160], source=src), mechanism=mech, case=case)
